@@ -21,11 +21,12 @@ def main():
   out['suite_with_change'] = o.strip()
   rc1, o1 = sh('/venv/bin/python demo.py', cwd=wt, env=env, timeout=600)
   out['demo_with_change_exit'] = rc1
-  sh('git stash -- openhtf', cwd=wt)
+  open('/tmp/seeded_tmp.diff', 'w').write(diff)
+  sh('git apply -R /tmp/seeded_tmp.diff', cwd=wt)     # not `git stash`: the stash is shared between worktrees
   try:
     rc0, o0 = sh('/venv/bin/python demo.py', cwd=wt, env=env, timeout=600)
   finally:
-    sh('git stash pop', cwd=wt)
+    sh('git apply /tmp/seeded_tmp.diff', cwd=wt)
   out['demo_without_change_exit'] = rc0
   ok = '307 passed' in out['suite_with_change'] and rc1 != 0 and rc0 == 0
   out['confirmed'] = ok
